@@ -213,6 +213,15 @@ end KinModel.Conv
 
 namespace KinModel.Conv
 
+theorem any_scheme_map (host B c : String) (E : List String) :
+    (E.map (fun sch => ({ scheme := sch, host := host, base := B } : Server))).any (fun s => s.scheme == c) = E.contains c := by
+  induction E with
+  | nil => rfl
+  | cons a r ih =>
+    simp only [List.map_cons, List.any_cons, List.contains_cons, ih]
+    congr 1
+    exact Bool.beq_comm
+
 theorem Api_ext {V : Type} (a b : Api V) (h1 : a.ops = b.ops) (h2 : a.pathParams = b.pathParams)
     (h3 : a.shared = b.shared) (h4 : a.sharedResponses = b.sharedResponses) (h5 : a.defs = b.defs)
     (h6 : a.servers = b.servers) (h7 : a.security = b.security) (h8 : a.securityReq = b.securityReq) : a = b := by
